@@ -71,6 +71,8 @@ def run_case(scn):
     t = record.run_solver(scn, listener=True, inside_hook=inside, on_event=on_event, after_step=after_step, problem=prob)
     mon = holder["mon"]
     viol = list(mon.viol)
+    if t.fp_exhausted:
+        return {"violations": viol, "obs": {"fp_domain_exhausted": 1, "moments": sum(mon.moments.values())}, "skip": "fp-domain-exhausted"}
     if t.swallowed or t.aborted:
         viol.append({"mech": "solve-internal-exception", "stdout": t.stdout[-300:]})
     obs = {"runs": 1}
